@@ -72,6 +72,12 @@ fn bases(strtab_base: u64) -> Vec<Base> {
                 push(kind, 0, bi::sample(kind, 1, 2), f(2));
                 push(kind, 1, bi::sample(kind, 1, 0), f(2));
                 push(kind, 2, bi::sample(kind, 1, 1), vec![Field { name: "type", off: 29, width: 1, alpha: (0..=255).collect() }]);
+                // indexed, 4 colours and two spare bytes, ending on an 8-byte boundary: a colour count
+                // that is only slightly too large reaches past the padded extent
+                let mut spare = bi::enc_framebuffer(0xA0000, 320, 320, 200, 8, 0, &bi::enc_palette(&[(1, 2, 3), (4, 5, 6), (7, 8, 9), (10, 11, 12)]));
+                spare.extend_from_slice(&[0xD1, 0xD2]);
+                wr32(&mut spare, 4, 48);
+                push(kind, 3, spare, f(4));
             }
             bi::ELF => {
                 let f = vec![
